@@ -108,3 +108,123 @@ def corpus_job(indices: list[int], opsets: list[int]) -> list[dict[str, Any]]:
         rec["base_opset"] = base_opset
         out.append(rec)
     return out
+
+
+def opset_sensitive_keys() -> dict[str, Any]:
+    """Facts: plugins whose lowering branches on the target opset (source scan), and their testcases."""
+    import os
+    import re
+    from pathlib import Path
+
+    from harness import corpus as C
+
+    root = Path(os.environ.get("J2O_REPO", "/repo")) / "jax2onnx" / "plugins"
+    pat = re.compile(r"opset\w*\s*(<|>|<=|>=)\s*\d\d|_graph_default_opset|\d\d\s*(<|>|<=|>=)\s*\w*opset")
+    comps = set()
+    files = []
+    for f in sorted(root.rglob("*.py")):
+        if "examples" in f.parts:
+            continue
+        txt = f.read_text()
+        if pat.search(txt):
+            files.append(str(f.relative_to(root)))
+            for m in re.finditer(r'component\s*=\s*"([^"]+)"', txt):
+                comps.add(m.group(1))
+    vs = C.variants()
+    # single-precision, real-valued testcases only: the width policy of double-precision exports and complex
+    # layouts have their own findings and are not what the opset question is about
+    idx = [i for i, tp in enumerate(vs) if tp.get("component") in comps and not tp.get("input_params") and not tp.get("inputs_as_nchw") and not tp.get("outputs_as_nchw")
+           and not tp.get("_enable_double_precision_test_setting") and "complex" not in C.key_of(tp)]
+    return {"files": files, "components": sorted(comps), "indices": idx}
+
+
+def context_job(indices: list[int], opsets: list[int]) -> list[dict[str, Any]]:
+    """Opset-sensitive testcases placed in other CONTEXTS (an @onnx_function body, a cond branch) and driven
+    with steering values for integer scalar operands (start indices ...): census + checker + ORT at
+    every opset, results compared with JAX eager."""
+    import jax
+    import jax.numpy as jnp
+    import onnx
+    from jax import lax
+
+    import jax2onnx
+    from harness import corpus as C
+    from harness import onnxutil as U
+    from harness import userfns
+    from harness.censusjobs import classify_ort_load
+
+    vs = C.variants()
+    out = []
+    for i in indices:
+        tp = vs[i]
+        double = bool(tp.get("_enable_double_precision_test_setting", False))
+        try:
+            fn = C._instantiate(tp)
+            xs = [np.asarray(x) for x in C.author_inputs(tp)]
+        except Exception:  # noqa: BLE001
+            continue
+        if not xs or any(isinstance(d, str) for s_ in (tp.get("input_shapes") or []) for d in (s_ if isinstance(s_, (list, tuple)) else [s_])):
+            continue
+
+        def in_function(*a, _fn=fn):
+            userfns.SITE_CALL["any"] = _fn
+            return userfns.outer_body_any(*a)
+
+        def in_cond(*a, _fn=fn):
+            leaves_t = lambda ops: _fn(*ops)  # noqa: E731
+            return lax.cond(jnp.sum(jnp.asarray(a[0]).astype(jnp.float32)) * 0.0 == 0.0, leaves_t, leaves_t, a)
+
+        # steering: integer scalar operands take out-of-range / negative values too
+        steer = [xs]
+        int_scalars = [k for k, x in enumerate(xs) if x.shape == () and x.dtype.kind in "iu"]
+        for k in int_scalars:
+            for val in (-1, 0, 2, 6, 11, 1000):
+                alt = list(xs)
+                alt[k] = np.asarray(val, xs[k].dtype)
+                steer.append(alt)
+        for cname, cfn in (("function_body", in_function), ("cond_branch", in_cond)):
+            rec: dict[str, Any] = {"i": i, "key": C.key_of(tp), "context": cname, "per_opset": {}, "status": "ok"}
+            prev = bool(jax.config.jax_enable_x64)
+            jax.config.update("jax_enable_x64", double)
+            refs = []
+            try:
+                for a in steer:
+                    try:
+                        refs.append([np.asarray(v) for v in jax.tree_util.tree_leaves(fn(*[jnp.asarray(v) for v in a]))])
+                    except Exception:  # noqa: BLE001
+                        refs.append(None)
+            finally:
+                jax.config.update("jax_enable_x64", prev)
+            for ops in opsets:
+                pr: dict[str, Any] = {}
+                try:
+                    m = jax2onnx.to_onnx(cfn, [jax.ShapeDtypeStruct(x.shape, x.dtype) for x in xs], enable_double_precision=double, opset=ops)
+                except Exception as ex:  # noqa: BLE001
+                    pr["export_error"] = f"{type(ex).__name__}: {str(ex)[:140]}"
+                    rec["per_opset"][str(ops)] = pr
+                    continue
+                pr["declared"] = {o.domain or "": o.version for o in m.opset_import}.get("", None)
+                pr["events"] = node_events(m)
+                try:
+                    onnx.checker.check_model(m, full_check=True)
+                    pr["checker"] = "ok"
+                except Exception as ex:  # noqa: BLE001
+                    pr["checker"] = str(ex)[:200]
+                st, why = classify_ort_load(m)
+                pr["ort"], pr["ort_why"] = st, why
+                pr["mismatch"] = []
+                if st == "ok" and not tp.get("skip_numeric_validation"):
+                    for a, r in zip(steer, refs):
+                        if r is None or any(v.dtype.kind in "fc" and not np.all(np.isfinite(v)) for v in r):
+                            continue
+                        try:
+                            got = U.ort_run(m, C.feeds_for(m, a, {}, None))
+                        except Exception as ex:  # noqa: BLE001
+                            pr["mismatch"].append({"inputs": [np.asarray(v).tolist() for v in a if np.asarray(v).size < 8], "what": "run_error", "detail": str(ex)[:160]})
+                            continue
+                        ok = len(got) == len(r) and all(g.shape == e.shape and (np.array_equal(g, e) or (e.dtype.kind in "fc" and np.allclose(g.astype(np.float64), e.astype(np.float64), rtol=float(tp.get("rtol", 1e-4)), atol=float(tp.get("atol", 1e-5)), equal_nan=True))) for g, e in zip(got, r))
+                        if not ok:
+                            pr["mismatch"].append({"inputs": [np.asarray(v).tolist() for v in a if np.asarray(v).size < 8], "what": "values"})
+                rec["per_opset"][str(ops)] = pr
+            out.append(rec)
+    return out
